@@ -49,7 +49,7 @@ func findTextwireFiles() (map[string]string, error) {
 			return err
 		}
 
-		if info.IsDir() || !strings.Contains(path, userConfig.TemplateExt) {
+		if info.IsDir() || !strings.HasSuffix(path, userConfig.TemplateExt) {
 			return nil
 		}
 
@@ -72,7 +72,12 @@ func findTextwireFiles() (map[string]string, error) {
 }
 
 func nameFromPath(path string) string {
-	name := strings.Replace(path, userConfig.TemplateDir+"/", "", 1)
-	name = strings.Replace(name, userConfig.TemplateExt, "", 1)
-	return name
+	name, err := filepath.Rel(userConfig.TemplateDir, path)
+	if err != nil {
+		name = path
+	}
+
+	name = filepath.ToSlash(name)
+
+	return strings.TrimSuffix(name, userConfig.TemplateExt)
 }
